@@ -64,7 +64,8 @@ PROPS = {
     },
     "C06": {
         "props_files": ["C06"],
-        "theorems": ["decode_total", "decode_reads_bounded", "decode_canonical", "per_type_decode_total",
+        "theorems": ["decode_total", "decode_reads_bounded", "decode_canonical", "loops_fuel_independent",
+                     "accepted_crc_frame", "per_type_decode_total",
                      "uo_decode_total", "uo_decode_canonical", "report_decode_total", "report_decode_canonical"],
         "components": ["codec"],
         "rule": "cases = groups of <= 25 ops; malformed stream: all byte strings of length <= 4 over {00,01,22,7f,80,ff} (PDU) and "
